@@ -2,3 +2,4 @@
 import AJ.Props.C17
 import AJ.Props.C10Gen
 import AJ.Props.SlotCor
+import AJ.Props.C17Gen
